@@ -12,6 +12,7 @@
 //@@ slice: cursor_fields
 //@@ slice: cursor_layout
 //@@ slice: cursor_generation_check
+//@@ slice: cursor_length_guard
 use super::*;
 use crate::verif_support::*;
 
@@ -195,6 +196,36 @@ fn c16_score_cursor_wrong_length() {
   let r = PaginationCursor::decode(as_str(&b));
   assert!(r.is_err(), "C16: short cursor accepted");
   kani::cover!(b[0] >= 0xF0, "4-byte character");
+  std::mem::forget(r);
+}
+
+//@ props: C16, C11
+//@ tier: quick
+//@ funcs: api::reader::PaginationCursor::decode (slice: the statements before the per-chunk loop - length guard and decode buffer)
+//@ symbolic: the length of the cursor string, every value 0..=64 (ASCII content; the guard does not look at it)
+//@ bounds: lengths 0..=64 (the valid length is 42)
+//@ oracle: the guard lets a cursor through only if its number of 2-byte chunks fits the decode buffer the loop indexes (no out-of-bounds write for over-long cursors), and every length other than CURSOR_HEX_LEN is rejected with Err
+//@ assumes: alloc::fmt::format stubbed (error message text); slice extraction by anchor lines
+//@ outside: the loop body (c16_cursor_chunk_any_bytes) and the field extraction (c11_cursor_fields_any_bytes) are separate harnesses
+#[kani::proof]
+#[kani::unwind(3)]
+#[kani::stub(std::backtrace::Backtrace::capture, stub_backtrace)]
+#[kani::stub(alloc::fmt::format, stub_format)]
+fn c16_score_cursor_length_guard() {
+  let buf = [b'0'; 64];
+  let n: usize = kani::any();
+  kani::assume(n <= 64);
+  let raw = as_str(&buf[..n]);
+  let r = slice_cursor_length_guard(raw);
+  match &r {
+    Ok(cap) => {
+      assert!(n / 2 <= *cap, "C16: the cursor length guard admits a string with more 2-byte chunks than the decode buffer holds (index out of bounds in the decode loop)");
+      assert!(n == CURSOR_HEX_LEN, "C16: a cursor of the wrong length passes the length guard");
+    }
+    Err(_) => assert!(n != CURSOR_HEX_LEN, "C11: a cursor of the right length is rejected by the length guard"),
+  }
+  kani::cover!(r.is_ok(), "a well-sized cursor passes");
+  kani::cover!(r.is_err() && n > CURSOR_HEX_LEN, "an over-long cursor is rejected");
   std::mem::forget(r);
 }
 
